@@ -2,7 +2,8 @@
 From Verif Require Import Base.Lex Pipelined.Model Pipelined.ProofsBuf Pipelined.ProofsShape Pipelined.ProofsBounds.
 
 Definition pinv (s : st) : Prop :=
-  (flushed_keys s <> [] -> primary s <> []) /\ (primary s <> [] -> In (primary s) (flushed_keys s)).
+  (locked_keys s <> [] -> primary s <> []) /\ (primary s <> [] -> In (primary s) (locked_keys s)) /\
+  length (flog s) = length (flogp s).
 
 Lemma flushed_keys_start s :
   flushed_keys (start_flush s) =
@@ -11,28 +12,57 @@ Proof.
   unfold flushed_keys. cbn [start_flush flog]. rewrite flat_map_app. cbn [flat_map snd fst]. rewrite app_nil_r. reflexivity.
 Qed.
 
-Lemma pinv_start s : binv s -> pinv s -> pinv (start_flush s).
+Lemma combine_app {A B} (l1 l2 : list A) (m1 m2 : list B) :
+  length l1 = length m1 -> combine (l1 ++ l2) (m1 ++ m2) = combine l1 m1 ++ combine l2 m2.
 Proof.
-  intros [[Hs Hne] _ _] [H1 H2]. unfold pinv. rewrite flushed_keys_start. cbn [start_flush primary].
-  destruct (negb (closed s) && negb (is_nil (mem s))) eqn:Esent; cbn [andb].
-  - apply Bool.andb_true_iff in Esent as [_ Hnn]. apply Bool.negb_true_iff, is_nil_false in Hnn.
-    pose proof (first_key_in _ Hnn) as Hfi. rewrite Forall_forall in Hne.
-    destruct (is_nil (primary s)) eqn:Ep.
-    + split; [intros _; apply Hne; exact Hfi|intros _; apply in_or_app; right; exact Hfi].
-    + apply is_nil_false in Ep. split; [intros _; exact Ep|intros _; apply in_or_app; left; apply H2; exact Ep].
-  - rewrite app_nil_r. split; assumption.
+  revert m1; induction l1 as [|a t IH]; intros [|b m1] H; cbn in H; try discriminate; cbn [app combine]; [reflexivity|].
+  f_equal. apply IH. lia.
 Qed.
 
-Lemma pinv_frame s s' : pinv s -> flog s' = flog s -> primary s' = primary s -> pinv s'.
-Proof. unfold pinv, flushed_keys. intros H E1 E2. rewrite E1, E2. exact H. Qed.
+Lemma locked_keys_start s : length (flog s) = length (flogp s) ->
+  locked_keys (start_flush s) =
+  locked_keys s ++ (if negb (closed s) && negb (is_nil (mem s)) then map fst (lockable (mem s) (pne s)) else []).
+Proof.
+  intros Hl. unfold locked_keys. cbn [start_flush flog flogp]. rewrite combine_app by exact Hl. rewrite flat_map_app.
+  cbn [combine flat_map snd fst]. rewrite app_nil_r. reflexivity.
+Qed.
 
-Lemma complete_frame2 s o : flog (complete s o) = flog s /\ primary (complete s o) = primary s.
+(* a lock is only written for a flushed mutation *)
+Lemma locked_sub_flushed s k : In k (locked_keys s) -> In k (flushed_keys s).
+Proof.
+  unfold locked_keys, flushed_keys. intros H. apply in_flat_map in H as ([e fp] & Hin & Hk). cbn [fst snd] in Hk.
+  apply in_flat_map. exists e. split; [eapply in_combine_l; exact Hin|].
+  destruct (snd e); [|destruct Hk]. unfold lockable in Hk. apply in_map_iff in Hk as (kv & E & Hf). apply filter_In in Hf as [Hf _].
+  apply in_map_iff. exists kv; auto.
+Qed.
+
+Lemma pinv_start s : binv s -> pinv s -> pinv (start_flush s).
+Proof.
+  intros [[Hs Hne] _ _] (H1 & H2 & H3). unfold pinv. rewrite locked_keys_start by exact H3. cbn [start_flush primary flog flogp].
+  split; [|split]; [| |rewrite !app_length; cbn [length]; lia].
+  - destruct (negb (closed s) && negb (is_nil (mem s))) eqn:Esent; cbn [andb]; [|rewrite app_nil_r; exact H1].
+    destruct (is_nil (primary s)) eqn:Ep; [|intros _; apply is_nil_false; exact Ep].
+    intros Hne'. destruct (lockable (mem s) (pne s)) as [|[k0 v0] t] eqn:El.
+    + cbn [map] in Hne'. rewrite app_nil_r in Hne'. exfalso. specialize (H1 Hne'). destruct (primary s); [congruence|discriminate].
+    + cbn [first_key]. rewrite Forall_forall in Hne. apply Hne.
+      assert (Hin : In (k0, v0) (lockable (mem s) (pne s))) by (rewrite El; left; reflexivity).
+      unfold lockable in Hin. apply filter_In in Hin as [Hin _]. apply in_map_iff. exists (k0, v0); auto.
+  - destruct (negb (closed s) && negb (is_nil (mem s))) eqn:Esent; cbn [andb]; [|rewrite app_nil_r; exact H2].
+    destruct (is_nil (primary s)) eqn:Ep.
+    + intros Hp. apply in_or_app; right. destruct (lockable (mem s) (pne s)) as [|[k0 v0] t]; [cbn in Hp; congruence|]. left; reflexivity.
+    + intros Hp. apply in_or_app; left. apply H2; exact Hp.
+Qed.
+
+Lemma pinv_frame s s' : pinv s -> flog s' = flog s /\ flogp s' = flogp s -> primary s' = primary s -> pinv s'.
+Proof. unfold pinv, locked_keys. intros H [E1 E3] E2. rewrite E1, E2, E3. exact H. Qed.
+
+Lemma complete_frame2 s o : (flog (complete s o) = flog s /\ flogp (complete s o) = flogp s) /\ primary (complete s o) = primary s.
 Proof. unfold complete; destruct (inflight s); cbn; auto. Qed.
 
 Lemma pinv_flush P s f m wo : binv s -> pinv s -> pinv (fst (flush P s f m wo)).
 Proof.
   intros Hb H. unfold flush.
-  assert (H0 : pinv (set_cache s None)) by (eapply pinv_frame; [exact H|..]; reflexivity).
+  assert (H0 : pinv (set_cache s None)) by (eapply pinv_frame; [exact H|split|]; reflexivity).
   assert (Hb0 : binv (set_cache s None)) by (eapply binv_frame; [exact Hb|..]; reflexivity).
   set (s0 := set_cache s None) in *.
   destruct (negb (is_nil (stages s0))); [exact H0|].
@@ -48,24 +78,25 @@ Proof.
 Qed.
 
 Lemma step_frame_noflush P s o : (forall f m wo, o <> OFlush f m wo) ->
-  flog (fst (step P s o)) = flog s /\ primary (fst (step P s o)) = primary s.
+  (flog (fst (step P s o)) = flog s /\ flogp (fst (step P s o)) = flogp s) /\ primary (fst (step P s o)) = primary s.
 Proof.
-  intros Hn. destruct o; cbn [step]; try (split; reflexivity).
-  - destruct (is_nil v); split; reflexivity.
-  - destruct (get s k); split; reflexivity.
-  - destruct (bget s ks) as [[m c] shr]; split; reflexivity.
+  intros Hn. destruct o; cbn [step]; try (repeat split; reflexivity).
+  - destruct (is_nil v); repeat split; reflexivity.
+  - destruct (get s k); repeat split; reflexivity.
+  - destruct (bget s ks) as [[m c] shr]; repeat split; reflexivity.
   - exfalso; eapply Hn; reflexivity.
   - cbn [fst]. apply complete_frame2.
-  - unfold flush_wait. destruct (flushing s); [|split; reflexivity]. unfold wait; cbn [fst clear_flushing flog primary].
+  - unfold flush_wait. destruct (flushing s); [|repeat split; reflexivity]. unfold wait; cbn [fst clear_flushing flog flogp primary].
     apply complete_frame2.
-  - destruct (stages s), (segstages s); split; reflexivity.
-  - destruct (stages s), (segstages s); split; reflexivity.
-  - cbn [fst]. unfold store_step. destruct (inflight s); [|split; reflexivity].
-    destruct (flushing s) as [[g fb]|]; [|split; reflexivity].
-    destruct (nth_error fb (N.to_nat i)) as [[k v]|]; split; reflexivity.
-  - cbn [fst]. unfold complete_exist. destruct (inflight s); [|split; reflexivity]. cbn [set_tm flog primary].
+  - destruct (stages s), (segstages s); repeat split; reflexivity.
+  - destruct (stages s), (segstages s); repeat split; reflexivity.
+  - cbn [fst]. unfold store_step. destruct (inflight s); [|repeat split; reflexivity].
+    destruct (flushing s) as [[g fb]|]; [|repeat split; reflexivity].
+    destruct (nth_error fb (N.to_nat i)) as [[k v]|]; [destruct (is_cne (fpne s) (k, v))|]; repeat split; reflexivity.
+  - cbn [fst]. unfold complete_exist. destruct (inflight s); [|repeat split; reflexivity]. cbn [set_tm flog flogp primary].
     apply complete_frame2.
-  - cbn [fst]. unfold tm_start. destruct (_ && _); split; reflexivity.
+  - cbn [fst]. unfold tm_start. destruct (_ && _); repeat split; reflexivity.
+  - destruct (is_nil v); repeat split; reflexivity.
 Qed.
 
 Lemma pinv_step P s o : binv s -> pinv s -> pinv (fst (step P s o)).
@@ -85,7 +116,7 @@ Proof.
   { induction ops as [|o t IH]; intros s Hb H Hok; cbn [fold_left]; [exact H|].
     cbn [forallb] in Hok. apply Bool.andb_true_iff in Hok as [Ho Ht].
     apply IH; [apply binv_step; assumption|apply pinv_step; assumption|exact Ht]. }
-  intros Hok. apply G; [apply binv_init| |exact Hok]. split; cbn; [tauto|congruence].
+  intros Hok. apply G; [apply binv_init| |exact Hok]. repeat split; cbn; [tauto|congruence].
 Qed.
 
 (* once chosen the primary never changes: every generation's locks point to the same primary *)
